@@ -78,6 +78,7 @@ type QueueSpec struct {
 	PreemptMinRuntime string `json:"preempt_min_runtime,omitempty"`
 	ReclaimMinRuntime string `json:"reclaim_min_runtime,omitempty"`
 	NilResources      bool   `json:"nil_resources,omitempty"`
+	AgeH              int    `json:"age_h,omitempty"` // creation = Epoch - 24h - AgeH hours (queues of different age)
 }
 
 type TolerationSpec struct {
@@ -229,7 +230,7 @@ func BuildNode(n NodeSpec) *corev1.Node {
 func BuildQueue(q QueueSpec) *schedv2.Queue {
 	obj := &schedv2.Queue{
 		TypeMeta:   metav1.TypeMeta{APIVersion: "scheduling.run.ai/v2", Kind: "Queue"},
-		ObjectMeta: metav1.ObjectMeta{Name: q.Name, UID: types.UID("queue-" + q.Name), CreationTimestamp: metav1.NewTime(Epoch.Add(-24 * time.Hour))},
+		ObjectMeta: metav1.ObjectMeta{Name: q.Name, UID: types.UID("queue-" + q.Name), CreationTimestamp: metav1.NewTime(Epoch.Add(-24*time.Hour - time.Duration(q.AgeH)*time.Hour))},
 		Spec: schedv2.QueueSpec{
 			ParentQueue: q.Parent,
 			Priority:    q.Priority,
